@@ -13,6 +13,7 @@ def run(ctx):
     resolve_discipline(ctx)
     attribute_scans(ctx)
     attribute_table(ctx)
+    attr_literal_table(ctx)
     unresolved_is_deferred(ctx)
 
 
@@ -655,14 +656,37 @@ def attribute_scans(ctx):
 
 
 # ------------------------------------------------------------------------------------------------
+def _literal_test(P, c, depth=0):
+    """(literal, value of the condition when the name equals the literal) for `name == "lit"` / `name != "lit"`, also when the
+    comparison is wrapped in a predicate function of the crate (`is_default_marker(attribute)`) that is true exactly there"""
+    if c[0] == 'call' and len(c[2]) == 2 and any(isinstance(x, tuple) and x[0] == 'str' for x in c[2]) and re.search(r'::(eq|ne)$', c[1]):
+        return [x[1] for x in c[2] if x[0] == 'str'][0], not c[1].endswith('::ne')
+    if c[0] == 'call' and c[1] in P.fns and depth < 2 and P.fns[c[1]].raw.get('output') == 'bool':
+        H = P.fns[c[1]]
+        tests = [(s_, _literal_test(P, s_['cond'], depth + 1)) for s_ in H.switches()]
+        tests = [(s_, t) for s_, t in tests if t]
+        if len(tests) == 1:
+            s_, (lit, want) = tests[0]
+            tg = [t for l, t in s_['edges'] if l is want]
+            ex = H.exits()
+            trues = [x for x in ex if strip(x['expr']) == ('int', 1, 'bool')]
+            falses = [x for x in ex if strip(x['expr']) == ('int', 0, 'bool')]
+            if tg and trues and len(trues) + len(falses) == len(ex) and all(H.dominates(tg[0], x['block']) for x in trues) and H.pred(tg[0]) == [s_['block']]:
+                return lit, True
+            if tg and falses and len(trues) + len(falses) == len(ex) and all(H.dominates(tg[0], x['block']) for x in falses) and H.pred(tg[0]) == [s_['block']] and \
+                    not any(H.dominates(tg[0], x['block']) for x in trues):
+                return lit, False
+    return None
+
+
 def attr_assignments(f):
     """[(attribute name literal, set of locals assigned under the branch that matched it)]"""
     out = []
     for s_ in f.switches():
         c = s_['cond']
-        if c[0] == 'call' and len(c[2]) == 2 and any(isinstance(x, tuple) and x[0] == 'str' for x in c[2]) and re.search(r'::(eq|ne)$', c[1]):
-            lit = [x[1] for x in c[2] if x[0] == 'str'][0]
-            want = not c[1].endswith('::ne')
+        lt = _literal_test(f.prog, c)
+        if lt:
+            lit, want = lt
             tg = [t for l, t in s_['edges'] if l is want]
             if not tg:
                 continue
@@ -760,6 +784,8 @@ def attribute_table(ctx):
                     if isinstance(x, tuple) and x[0] == 'agg' and x[1].endswith('EnumDefinition'):
                         ed = dict(x[2])
         if ed:
+            # the variant marker: only `default` marks the default variant
+            check('enum-variant', ['C08'], f, {'default_index': var_of(ed.get('default_index', ('none',)))}, {'default': {'default_index'}})
             f, roles = rehome(f, {k: ed[k] for k in ('copyable', 'cloneable', 'defaultable', 'singleton')})
             check('enum', ['C17', 'C08', 'C15'], f, roles,
                   {'singleton': {'singleton'}, 'copyable': {'copyable', 'cloneable'}, 'cloneable': {'cloneable'}, 'defaultable': {'defaultable'}})
@@ -785,6 +811,50 @@ def attribute_table(ctx):
             check('extern-type', ['C02', 'C01'], f, roles, {'size': {'size'}, 'align': {'alignment'}})
         else:
             ctx.fail_closed(['C02'], 'R-TABLE', 'attr-table|extern-type', 'extern type registration not found', loc(f.span))
+
+
+ATTR_LITERALS = {
+    # builder -> attribute name -> type fragments of the named locals it sets (one entry per place the name is recognised)
+    'function': ('semantic::function::build', {'address': [['FunctionBody']], 'index': [[]], 'calling_convention': [['CallingConvention']]}, ['C05', 'C04', 'C16']),
+    'type': ('semantic::type_definition::build', {'size': [['usize'], ['usize']], 'singleton': [['usize']], 'align': [['usize']], 'copyable': [['bool']], 'cloneable': [['bool']],
+                                                 'defaultable': [['bool']], 'packed': [['bool']], 'base': [['bool']], 'address': [['usize']]}, ['C01', 'C02', 'C03', 'C06', 'C07', 'C15', 'C17']),
+    'enum': (None, {'default': [['usize']], 'copyable': [['bool']], 'cloneable': [['bool']], 'defaultable': [['bool']], 'singleton': [['usize']]}, ['C08', 'C15', 'C17']),
+    'module': ('semantic::semantic_state::SemanticState::add_module', {'address': [['usize']], 'size': [['usize']], 'align': [['usize']]}, ['C15', 'C02']),
+    'vftable': ('semantic::type_definition::vftable::convert_grammar_functions_to_semantic_functions', {'index': [['usize']]}, ['C04', 'C06']),
+    'doc': ('grammar::Attributes::doc', {'doc': [[]]}, ['C17']),
+}
+
+
+def attr_literal_table(ctx):
+    """the attribute names of the language: every builder recognises exactly its own set of names, each where it sets state of
+    the expected kind (a misspelt or swapped name changes the meaning of every description that uses it)"""
+    P = ctx.prog
+    for tag, (fid, expect, props) in ATTR_LITERALS.items():
+        if fid is None:
+            eb = [f for f in P.fns.values() if f.kind != 'Closure' and any(t == '&grammar::EnumDefinition' for t in f.raw.get('inputs', [])) and 'ItemStateResolved' in f.raw.get('output', '')]
+            root = eb[0] if len(eb) == 1 else None
+        else:
+            root = P.fns.get(fid)
+        if root is None:
+            ctx.fail_closed(props, 'R-TABLE', 'attr-literals|' + tag, 'builder function not found')
+            continue
+        others = [x[0] for k, x in ATTR_LITERALS.items() if k != tag and x[0]]
+        got = {}
+        for g in exclusive_family(P, root, exclude=others):
+            for lit, assigned, sp in attr_assignments(g):
+                tys = sorted({g.local_ty(l) for l in assigned if l in g.names})
+                got.setdefault(lit, []).append(tys)
+        ok = set(got) == set(expect)
+        for lit, occs in expect.items():
+            have = got.get(lit, [])
+            if len(have) < len(occs):
+                ok = False
+            for frag in occs:
+                if not any(all(any(fr in t for t in tys) for fr in frag) for tys in have):
+                    ok = False
+        det = {k: [[t.split('::')[-1].rstrip('>') for t in tys][:4] for tys in v] for k, v in sorted(got.items())}
+        ctx.ob(props, 'R-TABLE', 'attr-literals|' + tag, ok,
+               'attribute names recognised (and the kind of state each sets) are exactly %s: found %s' % (sorted(expect), det), loc(root.span))
 
 
 # ------------------------------------------------------------------------------------------------
